@@ -42,10 +42,18 @@ def sha(obj):
 
 
 def load_known():
+    """known_findings.json (assembled, committed) merged with the per-property fragments findings/Cxx.json
+    it is assembled from (harness/assemble.py); an entry is identified by its id."""
+    import glob
+    out = {}
     p = os.path.join(VERIF, 'known_findings.json')
-    if not os.path.exists(p):
-        return []
-    return json.load(open(p)).get('findings', [])
+    if os.path.exists(p):
+        for k in json.load(open(p)).get('findings', []):
+            out[k['id']] = k
+    for fp in sorted(glob.glob(os.path.join(VERIF, 'findings', '*.json'))):
+        for k in json.load(open(fp)).get('findings', []):
+            out[k['id']] = k
+    return list(out.values())
 
 
 def write_replay(prop, payload):
